@@ -168,10 +168,13 @@ def entries(ctx):
 GROUPS = [guard(est_x), guard(score), guard(entries)]
 BOUNDED = [bounded("fa_repro.py", "score_entry_points", "C11.native",
                    "score == reference formula (exact rationals); score(list) == score([sum]); probes unchanged; score_using_array / enroll_using_array / "
-                   "ISVMachine.transform agree with the statistics-level entry points on the UBM statistics of the same arrays (float64)")]
+                   "ISVMachine.transform agree with the statistics-level entry points on the UBM statistics of the same arrays (float64)"),
+           bounded("fa_repro.py", "continued", "C11.fa.history",
+                   "after fit, enrol/score, fit again (lists and per-class delayed lists, shared and serialised tasks) the score is the channel-compensated "
+                   "linear score under the machine's CURRENT U, V, D (independent float64 formula, rel. tol. 1e-8)")]
 SHARED = [("C08", "post", ["C08.post", "C08.norm"]), ("C08", "lemmas", ["C08.additive"]), ("C02", "add_post", ["C02.add.n", "C02.add.sum_px", "C02.add.t"]),
           ("C02", "estep_post", ["C02.estep.n", "C02.estep.sum_px"])]
-REPLAY = [("C11", "fa_repro.py", "score_entry_points", {})]
+REPLAY = [("C11.fa.history", "fa_repro.py", "continued", {}), ("C11.x", "fa_repro.py", "continued", {}), ("C11", "fa_repro.py", "score_entry_points", {})]
 TRUSTED = ["np.linalg.inv contract; compound axis C*D row-major", "linear_scoring and GMMStats.__add__ by their contracts (C08.post, C02.add.*)"]
 ASSUMPTIONS = ["UBM variances > 0", "fit_using_array is covered by the bounded objrun engine"]
 XCHECK = ['fa', 'linear']
